@@ -297,7 +297,10 @@ def run_case(case, acc):
                     if fmt in ('eps', 'pdf'):
                         # both documented tuple spellings: integers 0..255 and floats 0.0..1.0 (colliding values on purpose)
                         variants += [{'dark': (1.0, 0.0, 0.0)}, {'dark': (1, 0, 0)}, {'light': (1.0, 1.0, 1.0)}, {'light': (1, 1, 1)},
-                                     {'dark': (0.5, 0.25, 1.0)}, {'dark': (0, 0, 1)}, {'dark': (0.0, 0.0, 1.0)}]
+                                     {'dark': (0.5, 0.25, 1.0)}, {'dark': (0, 0, 1)}, {'dark': (0.0, 0.0, 1.0)},
+                                     # floats with every channel below 1.0, black and white as floats, an int triple below 2
+                                     {'dark': (0.5, 0.25, 0.75)}, {'light': (0.25, 0.5, 0.75)}, {'dark': (0.0, 0.5, 0.0), 'light': (0.9, 0.9, 0.5)},
+                                     {'dark': (0.0, 0.0, 0.0)}, {'dark': (0.99, 0.99, 0.99)}, {'dark': (1, 1, 0)}, {'dark': (0, 1, 1), 'light': (1, 0, 1)}]
                     if fmt == 'pdf':
                         variants += [{'compresslevel': 0}, {'compresslevel': 1, 'light': '#eee'}]
                     if fmt == 'svg':
